@@ -101,6 +101,20 @@ func installStdlib(m *Machine) {
 		return unknownCall("strings.HasPrefix", args), nil
 	}
 	m.Ext["strings.SplitN"] = func(m *Machine, pos token.Pos, recv Value, args []Value) (Value, error) {
+		// symbolic: tokens stand for identifiers and never contain the separator
+		if len(args) == 3 {
+			if s, ok := args[0].(*Sym); ok {
+				if sepS, ok := args[1].(*Sym); ok {
+					if sep, ok := sepS.Concrete(); ok && sep != "" {
+						if n, ok := args[2].(int64); ok {
+							if _, conc := s.Concrete(); !conc {
+								return symSplitN(s, sep, int(n)), nil
+							}
+						}
+					}
+				}
+			}
+		}
 		if len(args) == 3 {
 			if c, ok := concreteArgs(args[:2]); ok {
 				if n, ok := args[2].(int64); ok {
@@ -256,4 +270,35 @@ func installStdlib(m *Machine) {
 		}
 		return out, nil
 	}
+}
+
+// symSplitN splits a symbolic string at sep; tokens are opaque and assumed
+// not to contain sep (they stand for Go identifiers).
+func symSplitN(s *Sym, sep string, n int) *List {
+	out := &List{}
+	cur := &Sym{}
+	for pi, p := range s.Parts {
+		if p.Tok != "" {
+			cur.push(p)
+			continue
+		}
+		rest := p.Lit
+		for {
+			if n > 0 && len(out.Elems) == n-1 {
+				break
+			}
+			i := strings.Index(rest, sep)
+			if i < 0 {
+				break
+			}
+			cur.push(Part{Lit: rest[:i]})
+			out.Elems = append(out.Elems, cur)
+			cur = &Sym{}
+			rest = rest[i+len(sep):]
+		}
+		cur.push(Part{Lit: rest})
+		_ = pi
+	}
+	out.Elems = append(out.Elems, cur)
+	return out
 }
